@@ -16,6 +16,10 @@ def run(ctx):
 
     def payload(n):
         k = rng.random()
+        if k < 0.12:
+            # a hash that begins like a serialised witness program: <version opcode> <its own length - 2>
+            return bytes([rng.choice([0x00, 0x51, 0x52, 0x60]), n - 2]) + bytes(rng.randrange(256) for _ in range(n - 2))
+        k = rng.random()
         if k < 0.6:
             return bytes(rng.randrange(256) for _ in range(n))
         if k < 0.7:
